@@ -267,10 +267,10 @@ let comp_equiv_meet dim (a : comp) (m : meet) : bool option =
 let pair = ref "CG" and red = ref 'D'
 let closed_comp w = (* is component w a necessarily closed polyhedron? *)
   match !pair, w with
-  | "CG", 1 | "GC", 2 | "CN", 1 | "BC", 2 | "SC", 2 -> true
+  | "CG", 1 | "GC", 2 | "CN", 1 | "BC", 2 | "SC", 2 | "CS", 1 -> true
   | _ -> false
 let is_poly w = match !pair, w with
-  | "CG", 1 | "GC", 2 | "NG", 1 | "CN", _ | "NN", _ | "BC", 2 | "SC", 2 -> true | _ -> false
+  | "CG", 1 | "GC", 2 | "NG", 1 | "CN", _ | "NN", _ | "BC", 2 | "SC", 2 | "CS", 1 | "NB", 1 -> true | _ -> false
 let relax_con k = if k.ckd = GT then { k with ckd = GE } else k
 
 let nth_q p i = List.nth p i
@@ -464,6 +464,19 @@ let check_image kind dim_new (mo : meet) dim_old (mn : meet) (exact_img : (sys -
         (Some (!bad = None))
   end
 
+let read_rel c = match next c with "<" -> Some RLT | "<=" -> Some RLE | "==" -> Some REQ | ">=" -> Some RGE | ">" -> Some RGT | _ -> None
+
+(* preimages when a grid takes part: candidate points q (lattice of the NEW meet, aimed at its constraints, and a rational window);
+   [pre q] = a point p related to q by the transformer (or None); when p is in the old meet, q must be in the result *)
+let preimage_by_candidates kfail dim (mo : meet) (mn : meet) (pre : q list -> q list option) =
+  incr sampled; bump "image-sampled";
+  let cand = (match timed (fun () -> lattice_points_aimed dim mn.mcgs mn.mcons) None with Some l -> l | None -> []) in
+  let cand2 = (match timed (fun () -> lattice_points_aimed dim mo.mcgs mo.mcons) None with Some l -> l | None -> []) in
+  let cand3 = (match timed (fun () -> lattice_points dim []) None with Some l -> l | None -> []) in
+  let bad = List.find_opt (fun qv -> incr sample_points;
+    (match pre qv with Some p -> mem_meet mo p && not (mem_meet mn qv) | None -> false)) (cand @ cand2 @ cand3) in
+  judge kfail (match bad with Some qv -> "point " ^ string_of_pt qv ^ " of the preimage is not in the result" | None -> "") (Some (bad = None))
+
 let few_values = [q_of_int 0; q_of_int 1; q_of_int (-1); q_half 1; q_half (-3); q_of_int 5; q_of_int (-7)]
 
 (* ---- main loop over a case ---- *)
@@ -498,7 +511,12 @@ let () =
         let ret, resp = if String.length resp > 4 && String.sub resp 0 4 = "ret " then (Some (String.sub resp 4 1 = "1"), (match read_obs () with Some l -> l | None -> "")) else None, resp in
         ignore ret;
         let news = read_states [] in
-        let old id = try Some (Hashtbl.find states id) with Not_found -> None in
+        (* an object one of whose COMPONENTS reported OK() == false is in a state its own class invariant does not describe
+           (a defect of that component domain: C03-C05's subject): what the printed constraints say about it is meaningless,
+           so transitions starting from such a state are not judged *)
+        let old id = (try let o = Hashtbl.find states id in
+                          if o.ok1 && o.ok2 then Some o else (bump "not-owned:transition-from-component-OK-false"; None)
+                      with Not_found -> None) in
         let r = { t = split resp } in
         let head = next r in
         let exn = (head = "res" && (match r.t with "exn" :: _ -> true | _ -> false)) in
@@ -621,10 +639,14 @@ let () =
                 let expected_flag = (match op with
                   | "add_constraint" | "refine_with_constraint" | "add_constraints" | "refine_with_constraints" | "add_congruence"
                   | "refine_with_congruence" | "refine_with_congruences" | "intersection_assign" | "difference_assign" | "affine_image"
-                  | "affine_preimage" | "generalized_affine_image" | "generalized_affine_preimage" -> Some false
-                  | "upper_bound_assign" | "upper_bound_assign_if_exact" | "time_elapse_assign" | "unconstrain" -> Some true
+                  | "affine_preimage" | "generalized_affine_image" | "generalized_affine_preimage"
+                  | "generalized_affine_image_lhs" | "generalized_affine_preimage_lhs" | "bounded_affine_image" | "bounded_affine_preimage"
+                  | "add_congruences" -> Some false
+                  | "upper_bound_assign" | "upper_bound_assign_if_exact" | "time_elapse_assign" | "unconstrain" | "unconstrain_set"
+                  | "widening_assign" -> Some true
                   | "topological_closure_assign" | "add_space_dimensions_and_embed" | "add_space_dimensions_and_project"
-                  | "remove_higher_space_dimensions" -> Some x.flag
+                  | "remove_higher_space_dimensions" | "remove_space_dimensions" | "map_space_dimensions" | "expand_space_dimension"
+                  | "fold_space_dimensions" -> Some x.flag
                   | "concatenate_assign" -> Some (x.flag && yflag ())
                   | "assign" -> Some (yflag ())
                   | _ -> None) in
@@ -715,7 +737,83 @@ let () =
                  | "remove_higher_space_dimensions" ->
                    let k = nexti c in
                    check_image kfail k mo dim mn (Some (fun s -> j_remove_higher (nat k) (nat dim) s)) (fun p -> [List.filteri (fun i _ -> i < k) p])
-                 | "generalized_affine_image" | "generalized_affine_preimage" -> bump "not-judged"
+                 | "add_congruences" -> restrict_op [] (read_cgs c dim)
+                 | "generalized_affine_image" ->
+                   let v = nexti c in let r = read_rel c in let d = nextz c in let e = read_expr c dim in
+                   (match r with
+                    | None -> bump "not-judged"
+                    | Some r ->
+                      (* sample images: the value e(p)/d itself when the relation admits equality *)
+                      let pts p = if r = RLT || r = RGT then [] else [set_nth p v (qdiv_z (leval_pt e p) d)] in
+                      check_image kfail dim mo dim mn (Some (fun s -> j_gen_image (nat v) (nat dim) r e d s)) pts)
+                 | "generalized_affine_preimage" ->
+                   let v = nexti c in let r = read_rel c in let d = nextz c in let e = read_expr c dim in
+                   (match r with
+                    | None -> bump "not-judged"
+                    | Some r ->
+                      if exact mo && exact mn then
+                        check_image kfail dim mo dim mn (Some (fun s -> j_gen_preimage (nat v) (nat dim) r e d s)) (fun _ -> [])
+                      else preimage_by_candidates kfail dim mo mn (fun qv ->
+                        if r = RLT || r = RGT then None else Some (set_nth qv v (qdiv_z (leval_pt e qv) d))))
+                 | "bounded_affine_image" ->
+                   let v = nexti c in let d = nextz c in let lb = read_expr c dim in let ub = read_expr c dim in
+                   let pts p = let l = qdiv_z (leval_pt lb p) d and u = qdiv_z (leval_pt ub p) d in
+                     if qle_bool l u then [set_nth p v l; set_nth p v u] else [] in
+                   check_image kfail dim mo dim mn (Some (fun s -> j_bounded_image (nat v) (nat dim) lb ub d s)) pts
+                 | "bounded_affine_preimage" ->
+                   let v = nexti c in let d = nextz c in let lb = read_expr c dim in let ub = read_expr c dim in
+                   if exact mo && exact mn then
+                     check_image kfail dim mo dim mn (Some (fun s -> j_bounded_preimage (nat v) (nat dim) lb ub d s)) (fun _ -> [])
+                   else preimage_by_candidates kfail dim mo mn (fun qv ->
+                     let l = qdiv_z (leval_pt lb qv) d and u = qdiv_z (leval_pt ub qv) d in
+                     if qle_bool l u then Some (set_nth qv v l) else None)
+                 | "generalized_affine_image_lhs" ->
+                   (* lhs' rel rhs, only the variables of lhs change: no reference operator; images of sample points obtained by
+                      moving one variable of lhs so that lhs' = rhs (when the relation admits equality) *)
+                   let l = read_expr c dim in let r = read_rel c in let e = read_expr c dim in
+                   let pts p = (match r with
+                     | Some RLT | Some RGT | None -> []
+                     | _ -> List.concat (List.mapi (fun k a -> if is_z0 a || k >= dim then [] else
+                              let rest = j_qadd (leval_pt l p) (j_qmul (q_of_int (-1)) (j_qmul (inject_Z a) (nth_q p k))) in
+                              [set_nth p k (qdiv_z (j_qadd (leval_pt e p) (j_qmul (q_of_int (-1)) rest)) a)]) l.lcoefs)) in
+                   check_image kfail dim mo dim mn None pts
+                 | "generalized_affine_preimage_lhs" ->
+                   let l = read_expr c dim in let r = read_rel c in let e = read_expr c dim in
+                   (match r with
+                    | Some RLT | Some RGT | None -> bump "not-judged"
+                    | _ ->
+                      (match List.find_opt (fun k -> k < dim && not (is_z0 (List.nth l.lcoefs k))) (List.init (List.length l.lcoefs) (fun k -> k)) with
+                       | None -> bump "not-judged"
+                       | Some k ->
+                         let a = List.nth l.lcoefs k in
+                         preimage_by_candidates kfail dim mo mn (fun qv ->
+                           (* p = qv with x_k moved so that lhs(p) = rhs(qv) *)
+                           let rest = j_qadd (leval_pt l qv) (j_qmul (q_of_int (-1)) (j_qmul (inject_Z a) (nth_q qv k))) in
+                           Some (set_nth qv k (qdiv_z (j_qadd (leval_pt e qv) (j_qmul (q_of_int (-1)) rest)) a)))))
+                 | "unconstrain_set" ->
+                   let k = nexti c in let vs = List.init k (fun _ -> nexti c) in
+                   check_image kfail dim mo dim mn (Some (fun s -> j_unconstrain_set (List.map nat vs) s))
+                     (fun p -> List.map (fun w -> List.fold_left (fun p v -> set_nth p v w) p vs) few_values)
+                 | "remove_space_dimensions" ->
+                   let k = nexti c in let vs = List.init k (fun _ -> nexti c) in
+                   let cnt = ref 0 in
+                   let pf = List.init dim (fun i -> if List.mem i vs then None else (let j = !cnt in incr cnt; Some (nat j))) in
+                   check_image kfail !cnt mo dim mn (Some (fun s -> j_map_dims pf (nat (dim + 1)) s)) (fun p -> [List.filteri (fun i _ -> not (List.mem i vs)) p])
+                 | "map_space_dimensions" ->
+                   let k = nexti c in let m = List.init k (fun _ -> nexti c) in
+                   let pf = List.map (fun j -> if j < 0 then None else Some (nat j)) m in
+                   let nd = List.fold_left (fun a j -> if j >= 0 then max a (j + 1) else a) 0 m in
+                   check_image kfail nd mo dim mn (Some (fun s -> j_map_dims pf (nat (max dim nd + 1)) s))
+                     (fun p -> [List.init nd (fun j -> let rec find i = function [] -> q_of_int 0 | x :: r -> if x = j then nth_q p i else find (i + 1) r in find 0 m)])
+                 | "expand_space_dimension" ->
+                   let v = nexti c in let m = nexti c in
+                   check_image kfail (dim + m) mo dim mn (Some (fun s -> j_expand (nat v) (nat dim) (nat m) s)) (fun p -> [p @ List.init m (fun _ -> nth_q p v)])
+                 | "fold_space_dimensions" ->
+                   (* no reference operator: every point with dest replaced by the value of one of the folded variables (or kept) *)
+                   let k = nexti c in let vs = List.init k (fun _ -> nexti c) in let dst = nexti c in
+                   check_image kfail (dim - k) mo dim mn None
+                     (fun p -> List.map (fun u -> List.filteri (fun i _ -> not (List.mem i vs)) (set_nth p dst (nth_q p u))) (dst :: vs))
+                 | "widening_assign" -> let _ = argm () in witness := ""; judge kfail ("lost (receiver) " ^ !witness) (incl_meet dim mo mn)
                  | _ -> bump "not-judged")
               | _ -> ())
            | _ -> raise (Syntax ("unknown command " ^ cmd)))
